@@ -50,9 +50,22 @@ def multiplier_case(case, ctx):
     if band:
         raise Skip()
     kw = dict(target=t, batch_size=case["batch_size"], device="cpu", references=R)
+    if case.get("train_mode"):
+        model.train()
+        ctx.label("handed_over_in_train_mode")
+    if case.get("override_first"):
+        plain = lambda module, grad_input, grad_output: grad_input
+        with warnings.catch_warnings():
+            warnings.simplefilter("ignore")
+            try:
+                deep_lift_shap(model, X, additional_nonlinear_ops={getattr(torch.nn, a): plain for a in nets.ACTS}, **kw)
+            except Exception:  # noqa: BLE001
+                pass
+        ctx.label("after_override_call")
     with warnings.catch_warnings():
         warnings.simplefilter("ignore")
         raw = sut(deep_lift_shap, model, X, raw_outputs=True, **kw)
+        require(raw.dtype == torch.float64, "result-dtype", lambda: "float64 model and input gave %s" % raw.dtype)
         hyp = sut(deep_lift_shap, model, X, hypothetical=True, **kw)
         att = sut(deep_lift_shap, model, X, **kw)
     desc = lambda: "arch=%s target=%d ns=%d" % ([(l["t"], l.get("name") or l.get("k")) for l in arch["layers"]], t, ns)
@@ -129,7 +142,8 @@ def strategy(draw, affine=False):
         arch["layers"] = layers
     X, refs, n, ns = draw(inputs(L, modes=("tensor",)))
     return {"arch": arch, "seed": draw(st.integers(0, 10 ** 6)), "X": X, "refs": refs, "target": draw(st.integers(0, arch["T"] - 1)),
-            "batch_size": draw(st.integers(1, n * ns + 1))}
+            "batch_size": draw(st.integers(1, n * ns + 1)),
+            "train_mode": draw(st.integers(0, 2)) == 0, "override_first": draw(st.integers(0, 5)) == 0}
 
 
 def subchecks(tier):
